@@ -119,7 +119,7 @@ def runCase (j : Json) : Except String Json := do
     let e : Exc := match bt with
       | some t => { e1 with bodyTmpl := t, custom := true }
       | none => e1
-    match prepare Pyr.Gen.C19.offered e environ q with
+    match prepare offeredForms e environ q with
     | .error err => return errJson err
     | .ok none => return Json.mkObj [("r", "untouched")]
     | .ok (some r) =>
